@@ -79,6 +79,15 @@ def work(task):
   results = set(); nonempty = False
   for pred in case.preds:
     script = comp.sql(pred)
+    if script[0] == 'diag' and ('proven to be empty' in script[2] or 'No rules are defining' in script[2]):
+      # a predicate that is provably empty within the depth is refused with a diagnostic: accepted iff the bounded iteration of the
+      # reference model is empty on every database
+      ok = True
+      for d in case.dbs:
+        ev = refsem.Evaluator(rules, {'E': (['col0', 'col1'], [tuple(r) for r in d['E']])}, depths=case.depths)
+        if ev.rows(pred)[1]: ok = False; break
+      stats['diagnosed_empty'] = stats.get('diagnosed_empty', 0) + 1
+      if ok: continue
     if script[0] != 'script':
       h.add_viol('compile-%s/%s' % (script[1], case.family), 'valid recursive program not compiled: %s %s | %s' % (script[1], script[2][:200], semcheck.oneline(text)), case, dict(pred=pred)); continue
     if script[5].iterations: stats['iterative_plans'] += 1
